@@ -83,8 +83,14 @@ def default_tag_by_evaluation(model: Model, folder: Folder, fi: FuncInfo, sinks:
             return TagConst(cls_[0], num[0], flag[0])
         return None
 
-    def callee_of(call: ast.Call, fi_: FuncInfo):
+    class FuncRef:
+        def __init__(self, fi_: FuncInfo):
+            self.fi = fi_
+
+    def callee_of(call: ast.Call, fi_: FuncInfo, env: Optional[Dict[str, Any]] = None):
         f = call.func
+        if isinstance(f, ast.Name) and env is not None and isinstance(env.get(f.id), FuncRef):
+            return env[f.id].fi.qualname, env[f.id].fi          # a function handed in as an argument
         if isinstance(f, ast.Name):
             q = model.resolve_name(fi_.module, f.id)
             if q in model.classes:
@@ -99,7 +105,7 @@ def default_tag_by_evaluation(model: Model, folder: Folder, fi: FuncInfo, sinks:
         for c in ast.walk(e):
             if not isinstance(c, ast.Call):
                 continue
-            q, callee = callee_of(c, fi_)
+            q, callee = callee_of(c, fi_, env)
             if q in sinks:
                 t = tag_of_args(c, fi_.module, env)
                 if t is not None:
@@ -122,6 +128,11 @@ def default_tag_by_evaluation(model: Model, folder: Folder, fi: FuncInfo, sinks:
                     env2[p_] = folder.fold(a, fi_.module, env, None)
                 except Unfoldable:
                     env2.pop(p_, None)
+                    if isinstance(a, ast.Name):
+                        gq = model.resolve_name(fi_.module, a.id)
+                        g = model.functions.get(gq) if gq else None
+                        if g is not None and g.cls is None and not isinstance(g.node, ast.Lambda):
+                            env2[p_] = FuncRef(g)
             r = run(callee.node.body, callee, env2, depth + 1)
             if r is not None:
                 return r
